@@ -1,67 +1,9 @@
 // t_bit.cpp - C06: the <bit> family matches C++20 <bit> on the element's two's-complement pattern.
-#include "vx_explore.hpp"
+
+#include "ops_bit.hpp"
 
 namespace vx {
-
-template<class S> inline unsigned nbits() { return 8 * sizeof(S); }
-
-inline unsigned m_popcount(std::uint64_t x) { unsigned n = 0; while (x) { n += unsigned(x & 1); x >>= 1; } return n; }
-inline unsigned m_clz(std::uint64_t x, unsigned bits) { unsigned n = 0; for (unsigned i = bits; i-- > 0;) { if ((x >> i) & 1) break; ++n; } return n; }
-inline unsigned m_ctz(std::uint64_t x, unsigned bits) { unsigned n = 0; for (unsigned i = 0; i < bits; ++i) { if ((x >> i) & 1) break; ++n; } return n; }
-inline std::uint64_t m_bit_floor(std::uint64_t x, unsigned bits) { return x == 0 ? 0 : 1ull << (bits - m_clz(x, bits) - 1); }
-inline std::uint64_t m_bit_ceil(std::uint64_t x, unsigned bits) {
-    if (x <= 1) return 1;
-    unsigned w = bits - m_clz(x - 1, bits);  // bit_width(x - 1)
-    if (w >= bits) return 0;                 // not representable
-    return 1ull << w;
-}
-inline std::uint64_t m_byteswap(std::uint64_t x, unsigned bits) {
-    std::uint64_t r = 0;
-    for (unsigned i = 0; i < bits / 8; ++i) r |= ((x >> (8 * i)) & 0xff) << (bits - 8 - 8 * i);
-    return r;
-}
-inline unsigned m_countl_sign(std::uint64_t x, unsigned bits) {
-    // number of bits after the sign bit that equal it == countl_zero(x ^ (x >> 1 arithmetic)) - 1
-    unsigned sign = unsigned((x >> (bits - 1)) & 1), n = 0;
-    for (unsigned i = bits - 1; i-- > 0;) { if (((x >> i) & 1) != sign) break; ++n; }
-    return n;
-}
-
-template<class S> inline bool bit_nt(S a, std::uint64_t result) {
-    std::uint64_t x = bits_of(a), M = low_mask(nbits<S>());
-    return x == 0 || x == M || (x >> (nbits<S>() - 1)) || result != 0;
-}
-
-#define VX_BIT_OP(NAME, EXPR, MODEL)                                                            \
-    struct NAME : OpBase {                                                                       \
-        static const int arity = 1;                                                              \
-        static const char* name() { return #NAME; }                                              \
-        template<class V> static auto apply(V a, V, V) VX_AUTO(EXPR)                             \
-        template<class S> static std::uint64_t model(S a, S, S) {                                \
-            const std::uint64_t x = bits_of(a); const unsigned B = nbits<S>(); (void)x; (void)B; \
-            return std::uint64_t(MODEL) & low_mask(B);                                           \
-        }                                                                                        \
-        template<class S> static bool nontrivial(S a, S b, S c) { return bit_nt(a, model(a, b, c)); } \
-    };
-
-VX_BIT_OP(popcount,        avel::popcount(un(a)),        m_popcount(x))
-VX_BIT_OP(countl_zero,     avel::countl_zero(un(a)),     m_clz(x, B))
-VX_BIT_OP(countl_one,      avel::countl_one(un(a)),      m_clz(~x & low_mask(B), B))
-VX_BIT_OP(countr_zero,     avel::countr_zero(un(a)),     m_ctz(x, B))
-VX_BIT_OP(countr_one,      avel::countr_one(un(a)),      m_ctz(~x & low_mask(B), B))
-VX_BIT_OP(bit_width,       avel::bit_width(un(a)),       B - m_clz(x, B))
-VX_BIT_OP(bit_floor,       avel::bit_floor(un(a)),       m_bit_floor(x, B))
-VX_BIT_OP(bit_ceil,        avel::bit_ceil(un(a)),        m_bit_ceil(x, B))
-VX_BIT_OP(byteswap,        avel::byteswap(un(a)),        m_byteswap(x, B))
-VX_BIT_OP(countl_sign,     avel::countl_sign(un(a)),     m_countl_sign(x, B))
-
-struct has_single_bit : OpBase {
-    static const int arity = 1;
-    static const char* name() { return "has_single_bit"; }
-    template<class V> static auto apply(V a, V, V) VX_AUTO(avel::has_single_bit(un(a)))
-    template<class S> static std::uint64_t model(S a, S, S) { return m_popcount(bits_of(a)) == 1 ? 1 : 0; }
-    template<class S> static bool nontrivial(S a, S b, S c) { return bit_nt(a, model(a, b, c)); }
-};
+using namespace obit;
 
 template<class V>
 inline void run_ops(const DomainS<typename V::scalar>& d1, const std::vector<typename V::scalar>& K) {
